@@ -136,7 +136,7 @@ func setup() error {
 		w.srv[i] = s
 		w.kh[i] = map[string]string{}
 		hostPat := strings.Fields(sshsim.KnownHostsLine(s.Port(), s.PlainHostKey()))[0] // "[127.0.0.1]:port"
-		for _, kind := range []string{"has", "other", "empty", "revoked", "revoked-other", "hashed", "cert-ca", "cert-other-ca", "cert-empty", "cert-plain-key"} {
+		for _, kind := range []string{"has", "other", "empty", "revoked", "revoked-other", "hashed", "other+right-under-other-port", "other+right-without-port", "alias-both", "cert-ca", "cert-other-ca", "cert-empty", "cert-plain-key"} {
 			if (i == 2) != strings.HasPrefix(kind, "cert-") {
 				continue
 			}
@@ -156,6 +156,12 @@ func setup() error {
 			case "hashed": // hashed host name form
 				f := strings.Fields(sshsim.KnownHostsLine(22, sshsim.FreshPublicKey()))
 				body = "other.example.org " + f[1] + " " + f[2] + "\n" + sshsim.HashedKnownHostsLine(s.Port(), s.HostKey())
+			case "other+right-under-other-port": // another key for the right host:port, the server's key under the NEXT port
+				body = sshsim.KnownHostsLine(s.Port(), sshsim.FreshPublicKey()) + sshsim.KnownHostsLine(s.Port()+1, s.HostKey())
+			case "other+right-without-port": // another key for the right host:port, the server's key for the bare host (port 22)
+				body = sshsim.KnownHostsLine(s.Port(), sshsim.FreshPublicKey()) + sshsim.KnownHostsLine(22, s.HostKey())
+			case "alias-both": // the key under the alias of the ssh config file and under the address it maps to
+				body = strings.Replace(sshsim.KnownHostsLine(s.Port(), s.HostKey()), "127.0.0.1", aliasHost, 1) + sshsim.KnownHostsLine(s.Port(), s.HostKey())
 			case "cert-ca": // the CA that signed the server's host certificate
 				body = sshsim.MarkedKnownHostsLine("cert-authority", hostPat, s.CAKey())
 			case "cert-other-ca": // an unrelated CA
@@ -265,6 +271,7 @@ func setup() error {
 		"all": "Host 127.0.0.1\n  Port 2022\n  User mallory\nHost *\n  IdentityFile " + other.Path +
 			"\n  StrictHostKeyChecking accept-new\n  UserKnownHostsFile /dev/null\n  Port 2023\n",
 		"benign":  "Host *\n  ServerAliveCountMax 3\n",
+		"alias":   "Host " + aliasHost + "\n  HostName 127.0.0.1\n",
 		"decoy-0": fmt.Sprintf("Host 127.0.0.1 localhost\n  Port %d\n", w.srv[0].Port()),
 		"decoy-1": fmt.Sprintf("Match host 127.0.0.1\n  Port %d\n", w.srv[1].Port()),
 	}
@@ -435,6 +442,10 @@ func teardown() {
 
 const prompt = "c14dev#"
 
+// aliasHost exists only in the configured ssh config file ("Host <alias> / HostName 127.0.0.1"): not in
+// DNS, not in /etc/hosts.
+const aliasHost = "lab-edge-1.invalid"
+
 // promptLikeNotice: post-login lines of which one ENDS in "password:" - what a device with a notice
 // about its enable password or a self-service portal prints. Over the standard transport nothing
 // may ever be typed in reply (authentication happened in the ssh protocol).
@@ -501,7 +512,7 @@ func (c Cell) expect() string {
 		return "refuse"
 	}
 	switch c.KH {
-	case "has", "revoked-other", "hashed", "cert-ca":
+	case "has", "revoked-other", "hashed", "cert-ca", "alias-both":
 		return "connect"
 	case "cert-plain-key":
 		return "either"
@@ -1243,6 +1254,14 @@ func gen(tier string, seed int64) []mon.Case {
 				for _, kh := range []string{"cert-ca", "cert-other-ca", "cert-empty", "cert-plain-key"} {
 					addX(Cell{Transport: tr, Strict: true, KH: kh, Auth: auth, Srv: 2})
 				}
+				for srv := 0; srv < 2; srv++ { // the server's key is listed, but under another port / for the bare host
+					addX(Cell{Transport: tr, Strict: true, KH: "other+right-under-other-port", Auth: auth, Srv: srv})
+					addX(Cell{Transport: tr, Strict: true, KH: "other+right-without-port", Auth: auth, Srv: srv})
+				}
+				if tr == "system" { // a host alias that only the configured ssh config file can resolve
+					addX(Cell{Transport: tr, Strict: false, KH: "none", Auth: auth, Srv: 0, Host: aliasHost, CfgKind: "alias"})
+					addX(Cell{Transport: tr, Strict: true, KH: "alias-both", Auth: auth, Srv: 1, Host: aliasHost, CfgKind: "alias"})
+				}
 				// controls: checking off
 				addX(Cell{Transport: tr, Strict: false, KH: "revoked", Auth: auth, Srv: 0})
 				addX(Cell{Transport: tr, Strict: false, KH: "cert-other-ca", Auth: auth, Srv: 2})
@@ -1464,7 +1483,8 @@ func init() {
 			"refused and a legitimate B must connect with its OWN new connection and login at the server), and 20 host-key rotation sequences (three opens of one transport object resp. fresh objects with the server's " +
 			"host key rotated in between: checking off must always connect, strict connects exactly when the file holds the current key). Plus 12 key-file-mode cells per repetition (key + password resp. key only, key file 0644/0640/0600, server accepts key or password: whenever the connection comes up the configured key must be what logged in) " +
 			"and 6 standard-transport cells whose device prints a line ENDING in 'password:' before its first prompt (nothing may be typed into the session). Plus 32 look-alike cells per repetition ($HOME temp dir holding files at $HOME/<configured path>, absolute and relative, with opposite known-hosts content resp. a hostile ssh config: only the configured files may be used) " +
-			"and 6 standard-transport cells with a live in-process ssh agent on SSH_AUTH_SOCK that holds a key the server accepts (only the configured identity may be offered). Plus 66 retry sequences per repetition on ONE driver object: Open #1 under a configuration that must fail inside Transport.Open (strict + no / missing / half-written known-hosts " +
+			"and 6 standard-transport cells with a live in-process ssh agent on SSH_AUTH_SOCK that holds a key the server accepts (only the configured identity may be offered). The unusual-contents cells also cover files that list the server's key under ANOTHER port resp. for the bare host next to another key for the right host:port (must refuse, no password offered) and, " +
+			"for the system transport, a host alias that only the configured ssh config file resolves (Host <alias> / HostName 127.0.0.1: must connect through that file; the host field is not judged). Plus 66 retry sequences per repetition on ONE driver object: Open #1 under a configuration that must fail inside Transport.Open (strict + no / missing / half-written known-hosts " +
 			"file; missing / half-written / unauthorised key file), optional Transport.Close, optional repair, Open #2 judged as a fresh object would be under the files at that moment (server accepts key and " +
 			"password, so a silent fallback to the password is visible). Plus 32 sequences per repetition in which ONE known-hosts path changes its contents between three consecutive strict opens in one process " +
 			"(has>other>has, has>empty>has, empty>has>empty, other>has>other; both transports; fresh Transport object per open and one re-used object; transport level, key auth): " +
